@@ -64,6 +64,10 @@ def shard_main(cid):
     except Exception:
         pass
     spec = json.loads(sys.stdin.read())
+    if os.environ.get("VF_REACH_DIR"):
+        from . import reach
+        from .common import PY_ROOT
+        reach.enable(os.path.join(PY_ROOT, "gherkin") + os.sep, os.environ["VF_REACH_DIR"], cid)
     wd = spec.get("_watchdog_s")
     if wd:
         faulthandler.dump_traceback_later(wd, exit=True)
